@@ -1,6 +1,6 @@
 (* C07 — readers deliver the stream exactly once, in order, however it is consumed.
    Full statements; proofs in Main_proofs.v (reader refinement) and Cursor_proofs.v (histories). *)
-From FlacReaders Require Import Spec Lists_proofs Ser_proofs Deint_proofs Main_proofs Examples.
+From FlacReaders Require Import Spec Lists_proofs Ser_proofs Deint_proofs Chan_proofs Main_proofs Examples.
 Open Scope N_scope.
 
 (* Byte reader (either byte order): for every valid file and every seek-free history over
@@ -77,4 +77,22 @@ Example C07_orig_redelivers_last_frame :
   outs (snd (chan_run (ex_file Repaired) [CFill; CConsume 15; CFill; CConsume 15; CFill; CConsume 2; CFill; CFill])) =
     [OChans (cseg 0 15); OUnit; OChans (cseg 15 15); OUnit;
      OChans [[700; 8]; [-700; -8]]%Z; OUnit; OChans [[]; []]; OChans [[]; []]].
+Proof. split; vm_compute; reflexivity. Qed.
+
+(* ---- beyond C07's statement (damaged streams; C05's concern, but it is this area's code): when the
+   channel reader's fill_buf reports an error, the frame that failed to decode is never handed out *)
+Theorem C07_channel_error_hides_frame : forall F r e,
+  f_rev F = Repaired -> snd (chan_fill_buf F r) = OErr e ->
+  pcm_frames (d_buf (cr_dec (fst (chan_fill_buf F r)))) <= cr_consumed (fst (chan_fill_buf F r)).
+Proof. exact chan_fill_error_hides. Qed.
+
+(* the first frame fails its CRC-16: the original hands its samples out on the next call *)
+Example C07_orig_hands_out_failed_frame :
+  let damaged rev :=
+    {| f_slots := [SBad [[9; 9; 9]; [7; 7; 7]]%Z; SFrame [[700; 8]; [-700; -8]]%Z]; f_channels := 2; f_bps := 16;
+       f_total := None; f_table := None; f_seekable := false; f_endian := LE; f_profile := Debug;
+       f_usize_bits := 64; f_rev := rev |} in
+  outs (snd (chan_run (damaged Orig) [CFill; CFill])) = [OErr ECrc16; OChans [[9; 9; 9]; [7; 7; 7]]%Z] /\
+  outs (snd (chan_run (damaged Repaired) [CFill; CFill; CConsume 2; CFill])) =
+    [OErr ECrc16; OChans [[700; 8]; [-700; -8]]%Z; OUnit; OChans [[]; []]].
 Proof. split; vm_compute; reflexivity. Qed.
